@@ -296,7 +296,10 @@ parsec_create_reshape_promise(parsec_execution_stream_t *es,
             data->data_future = (parsec_datacopy_future_t*)predecessor_repo_entry->data[predecessor_dep_flow_index];
             /* New fulfilled promises are set up on the successor repo in case
              * they track a data different to the one tracked by the predecessor repo. */
-            if(data->data != parsec_future_get_or_trigger(data->data_future, NULL, NULL, NULL, NULL)) {
+            /* A future that is not ready is the pending reshape of another type:
+             * it does not track this data, and it must not be triggered from here. */
+            if( !parsec_future_is_ready(data->data_future) ||
+                (data->data != parsec_future_get_or_trigger(data->data_future, NULL, NULL, NULL, NULL)) ) {
                 /* This case happens when a predecessor sends multiple copies with
                  * different shapes (type_remote) on the same output flow to a set
                  * of successors on the same remote destination node.
